@@ -43,11 +43,23 @@ pub fn locator(name: &str) -> Locator {
 }
 
 pub fn name_of(loc: &Locator) -> String {
-    loc.url()
-        .as_str()
-        .strip_prefix(BASE_URL)
-        .unwrap_or(loc.url().as_str())
-        .to_owned()
+    let raw = loc.url().as_str().strip_prefix(BASE_URL).unwrap_or(loc.url().as_str());
+    // File names with blanks or non-ASCII letters are percent-encoded in the URL.
+    let b = raw.as_bytes();
+    let mut out = Vec::with_capacity(b.len());
+    let mut i = 0;
+    while i < b.len() {
+        if b[i] == b'%' && i + 3 <= b.len() && raw.is_char_boundary(i + 1) && raw.is_char_boundary(i + 3) {
+            if let Ok(v) = u8::from_str_radix(&raw[i + 1..i + 3], 16) {
+                out.push(v);
+                i += 3;
+                continue;
+            }
+        }
+        out.push(b[i]);
+        i += 1;
+    }
+    String::from_utf8(out).unwrap_or_else(|_| raw.to_owned())
 }
 
 /// What went wrong while loading, by phase.
